@@ -956,8 +956,10 @@ ABT_bool ABTI_sched_has_unit(ABTI_sched *p_sched)
     for (p = 0; p < num_pools; p++) {
         ABT_pool pool = p_sched->pools[p];
         ABTI_pool *p_pool = ABTI_pool_get_ptr(pool);
-        if (!ABTI_pool_is_empty(p_pool))
-            return ABT_TRUE;
+        /* num_blocked must be read before the emptiness of the pool: a ULT
+         * that is resumed is first pushed to the pool and then num_blocked is
+         * decremented, so checking in the opposite order can miss a ULT that
+         * is resumed between the two checks. */
         switch (p_pool->access) {
             case ABT_POOL_ACCESS_PRIV:
                 if (ABTD_atomic_acquire_load_int32(&p_pool->num_blocked))
@@ -975,6 +977,8 @@ ABT_bool ABTI_sched_has_unit(ABTI_sched *p_sched)
             default:
                 break;
         }
+        if (!ABTI_pool_is_empty(p_pool))
+            return ABT_TRUE;
     }
     return ABT_FALSE;
 }
